@@ -105,7 +105,7 @@ def assign_pages(rng, t, p_owner=0.3):
     return t
 
 
-def build(rng, t, malform=None, gaps=True):
+def build(rng, t, malform=None, gaps=True, ordered=False):
     """lay the file out; returns bytes. malform: None | ('self', key) | ('empty', key) | ('cycle', k1, k2) | ('root',)"""
     import laspy
     import lazrs
@@ -115,7 +115,10 @@ def build(rng, t, malform=None, gaps=True):
     h.scales = np.array([t.scale] * 3)
     h.offsets = np.array(t.offsets)
     order = sorted(t.nodes)
-    rng.shuffle(order)
+    if ordered:
+        gaps = False        # level by level, one chunk right after the other: the next level's first chunk starts where the last read ended
+    else:
+        rng.shuffle(order)
     allpts = np.concatenate([t.nodes[k] for k in order]) if order else np.zeros(0, dtype=h.point_format.dtype())
     las.points = laspy.ScaleAwarePointRecord(allpts, h.point_format, h.scales, h.offsets)
     lazvlr = lazrs.LazVlr.new_for_compression(t.fmt, 0, lazrs.VARIABLE).record_data()
